@@ -668,7 +668,7 @@ func (r *resolver) cloneDefs(parent HasDataDefinitions, defs []Definition, when 
 	for i, d := range defs {
 		copy[i] = d.(cloneable).clone(parent).(Definition)
 		if when != nil {
-			copy[i].(HasWhen).setWhen(when)
+			copy[i].(HasWhen).setWhen(when.inherited())
 		}
 	}
 	return copy
@@ -795,6 +795,12 @@ func (r *resolver) expandAugment(y *Augment, parent Meta) error {
 	for _, orig := range y.DataDefinitions() {
 		var err error
 		d := orig.(cloneable).clone(target).(Definition)
+		if y.when != nil {
+			// RFC7950 Sec 7.17 the augmenting nodes are conditional on the augment's when
+			if hw, ok := d.(HasWhen); ok && hw.When() == nil {
+				hw.setWhen(y.when.inherited())
+			}
+		}
 		if targetIsChoice {
 			if cs, isCase := d.(*ChoiceCase); isCase {
 				if err = targetChoice.addCase(cs); err != nil {
